@@ -219,6 +219,20 @@ pub fn generate(seed: u64, prop: &str) -> PoolScenario {
         txs.push(TxSpec { inputs: vec![g1], outputs: 1, fee: r.range(600, 3_000), dep: Some(InRef::T(x, 0)), salt: r.below(1 << 30), hdep: None });
         txs.push(TxSpec { inputs: vec![InRef::T(x, 0)], outputs: r.urange(1, 2), fee: r.range(600, 3_000), dep: None, salt: r.below(1 << 30), hdep: None });
     }
+    // planted replacement shape: a (cheap) <- b (expensive child); r spends a's input and pays more than
+    // a alone plus the increment; in half of the cases less than a and b together plus the increment
+    let mut planted_rbf: Option<(usize, usize, usize)> = None;
+    if prop == "C11" && r.chance(1, 2) {
+        let gk = r.idx(g);
+        let fa = r.range(600, 1_500);
+        let fb = r.range(8_000, 40_000);
+        let a = txs.len();
+        txs.push(TxSpec { inputs: vec![InRef::G(gk)], outputs: 1, fee: fa, dep: None, salt: r.below(1 << 30), hdep: None });
+        txs.push(TxSpec { inputs: vec![InRef::T(a, 0)], outputs: 1, fee: fb, dep: None, salt: r.below(1 << 30), hdep: None });
+        let fr = if r.chance(1, 2) { fa + fb / 2 + 1_500 } else { fa + fb + 3_000 + r.range(0, 5_000) };
+        txs.push(TxSpec { inputs: vec![InRef::G(gk)], outputs: 1, fee: fr, dep: None, salt: r.below(1 << 30), hdep: None });
+        planted_rbf = Some((a, a + 1, a + 2));
+    }
     let ntx = txs.len();
     // operations
     let nops = r.urange(20, 120);
@@ -293,6 +307,13 @@ pub fn generate(seed: u64, prop: &str) -> PoolScenario {
         sk.push(POp::Quiesce);
         sk.extend(ops.drain(..).take(30));
         ops = sk;
+    }
+    if let Some((a, b, rr)) = planted_rbf {
+        let at = r.idx(ops.len().min(30) + 1);
+        let seq = vec![POp::Submit { t: a, remote: false }, POp::Submit { t: b, remote: false }, POp::Quiesce, POp::Submit { t: rr, remote: r.chance(1, 3) }, POp::Quiesce];
+        for (k, o) in seq.into_iter().enumerate() {
+            ops.insert(at + k, o);
+        }
     }
     if let (Some((x, p, c)), true) = (planted_shape, (prop == "C11" || prop == "C12" || prop == "C13") && r.chance(1, 3)) {
         // "foreign miner" skeleton: x is committed by the node's own templates; p (cell dep on x:0)
@@ -685,6 +706,55 @@ impl PoolExec {
 
     /// poll one task; true = finished
     fn poll_task(&mut self, i: usize, allow_yield: bool) -> bool {
+        // a submission changes the pool in its last segment only (after its last yield point): the
+        // contents right before every poll of such a task are the "before" of a possible replacement
+        let watch = self.tasks[i].name.starts_with("submit") || self.tasks[i].name.starts_with("verify_worker");
+        let before = if watch { Some(self.dump()) } else { None };
+        let done = self.poll_task_inner(i, allow_yield);
+        if let (true, Some(b)) = (done, before) {
+            let after = self.dump();
+            self.rbf_oracle(&b, &after);
+        }
+        done
+    }
+
+    /// C11: "a replacement is admitted only if it pays at least the replaced transactions' fees plus
+    /// the configured increment and never leaves both the replaced and the replacing transaction in
+    /// the pool". Replaced = the pooled transactions that spend one of the newcomer's inputs and
+    /// everything that spends their outputs (a subset of what the pool itself counts, so the bound
+    /// demanded here is never higher than the rule's).
+    fn rbf_oracle(&mut self, before: &PoolDump, after: &PoolDump) {
+        let was: BTreeSet<Byte32> = before.entries.iter().map(|e| e.tx.hash()).collect();
+        let now: BTreeSet<Byte32> = after.entries.iter().map(|e| e.tx.hash()).collect();
+        for t in after.entries.iter().filter(|e| !was.contains(&e.tx.hash())) {
+            let ins: BTreeSet<OutPoint> = t.tx.inputs().into_iter().map(|i| i.previous_output()).collect();
+            let mut replaced: BTreeSet<Byte32> = before.entries.iter().filter(|e| e.tx.inputs().into_iter().any(|i| ins.contains(&i.previous_output()))).map(|e| e.tx.hash()).collect();
+            if replaced.is_empty() {
+                continue;
+            }
+            self.res.probes.inc("rbf_replacement_admitted");
+            loop {
+                let more: Vec<Byte32> = before.entries.iter().filter(|e| !replaced.contains(&e.tx.hash()) && e.tx.inputs().into_iter().any(|i| replaced.contains(&i.previous_output().tx_hash()))).map(|e| e.tx.hash()).collect();
+                if more.is_empty() {
+                    break;
+                }
+                replaced.extend(more);
+            }
+            if replaced.len() > 1 {
+                self.res.probes.inc("rbf_replaced_has_descendants");
+            }
+            let sum: u64 = before.entries.iter().filter(|e| replaced.contains(&e.tx.hash())).map(|e| e.fee.as_u64()).sum();
+            let extra = after.limits.2.saturating_mul(t.size as u64) / 1000;
+            if t.fee.as_u64() < sum + extra {
+                self.viol("C11", "rbf_underpaid", format!("tx {} (fee {}, size {}) replaced {} pooled transaction(s) paying {} in total; rule demands at least {} + {}", hex(&t.tx.hash()), t.fee.as_u64(), t.size, replaced.len(), sum, sum, extra));
+            }
+            if let Some(h) = replaced.iter().find(|h| now.contains(*h)) {
+                self.viol("C11", "rbf_replaced_tx_still_pooled", format!("tx {} replaced {} which is still pooled", hex(&t.tx.hash()), hex(h)));
+            }
+        }
+    }
+
+    fn poll_task_inner(&mut self, i: usize, allow_yield: bool) -> bool {
         pv::arm_yield(allow_yield);
         let waker = Waker::noop();
         let mut cx = Context::from_waker(waker);
@@ -725,10 +795,14 @@ impl PoolExec {
     }
 
     fn run_value<T: Send + 'static>(&mut self, fut: BoxFut<T>) -> T {
+        self.run_value_named("inline", fut)
+    }
+
+    fn run_value_named<T: Send + 'static>(&mut self, name: &str, fut: BoxFut<T>) -> T {
         let slot: Arc<std::sync::Mutex<Option<T>>> = Arc::new(std::sync::Mutex::new(None));
         let s2 = Arc::clone(&slot);
         self.tasks.push(Task {
-            name: "inline".into(),
+            name: name.into(),
             fut: Box::pin(async move {
                 let v = fut.await;
                 *s2.lock().unwrap() = Some(v);
@@ -764,7 +838,7 @@ impl PoolExec {
             if self.take_queued() > 0 {
                 continue;
             }
-            let more = self.run_value(self.pool.next_verify());
+            let more = self.run_value_named("verify_worker_inline", self.pool.next_verify());
             if more {
                 continue;
             }
@@ -1094,6 +1168,9 @@ impl PoolExec {
         if !view.data().uncles().is_empty() {
             self.res.probes.inc("template_includes_uncles");
         }
+        if view.number() > self.w.cfg.w_far + 1 && view.transactions()[0].outputs().is_empty() {
+            self.res.probes.inc("template_cellbase_without_output_reward_cannot_fund_cell");
+        }
         match verdict {
             Some(Ok(true)) => {
                 if on_tip {
@@ -1171,7 +1248,7 @@ impl PoolExec {
         let base_n = if heavy { tipn.saturating_sub(back).min(self.w.cfg.genesis_epoch_len.saturating_sub(2)) } else { tipn.saturating_sub(back) };
         let tip_td = self.w.st(self.tip_idx).total_difficulty.clone();
         let mut parent = chain[base_n as usize];
-        let need = if heavy { 60 } else { (tipn - base_n) + len };
+        let need = if heavy { 40 } else { (tipn - base_n) + len };
         let mut r = Rng::new(seed);
         for j in 0..need {
             if heavy && self.w.st(parent).total_difficulty > tip_td {
@@ -1182,7 +1259,7 @@ impl PoolExec {
             }
             let recipe = Recipe {
                 ts_delta: if heavy { r.range(1, 20) } else { r.range(1_000, 9_000) },
-                miner: 3,
+                miner: if r.chance(1, 6) { 250 } else { 3 },
                 new_txs: 0,
                 propose: r.urange(0, 4),
                 commit: r.urange(0, 4),
@@ -1198,12 +1275,16 @@ impl PoolExec {
             self.now = self.now.max(v.timestamp());
             self.ft.set_faketime(self.now);
             let verdict = self.deliver(&v);
+            if heavy {
+                // a long branch: move the notifications out of the (bounded) channels as the service's
+                // loops would, keeping their order; they are executed later like any queued task
+                self.take_queued();
+            }
             if let Some(Err(e)) = verdict {
                 // C04: a block of transactions that meet every rule in their context was refused
                 // (e.g. a context reached through a reorganisation)
                 if self.sc.prop == "C04" {
-                    let kind = e.split('(').take(4).collect::<Vec<_>>().join("(");
-                    self.viol("C04", &format!("block_rejects_valid_tx:model_branch:{}", kind.chars().filter(|c| c.is_ascii_alphanumeric() || *c == '(').collect::<String>()), format!("a competing branch built by the model (every transaction valid in its context) was refused: {e}"));
+                    self.viol("C04", "block_rejects_valid_tx:model_branch", format!("a competing branch built by the model (every transaction valid in its context) was refused: {e}"));
                 } else {
                     self.res.harness_error = Some(format!("model-built fork block rejected: {e}"));
                 }
